@@ -8,7 +8,7 @@ HERE = os.path.dirname(os.path.abspath(__file__))
 COMMON_ASSUME = [
     "engine: go/ssa (x/tools v0.29.0) semantics as implemented by /verif/engine (bit-vector integers of the Go width, flat slot memory); validated per run by replaying solver models natively",
     "solver: z3 5.1.0 (z3-new) verdicts; any (error or unknown makes the check inconclusive, never a pass",
-    "summaries (each proved equivalent to the real function by harnesses Verif_Self_*): gopacket.FoldChecksum, layers.checksum, layers.tcpipChecksum = sum followed by two 16-bit folds",
+    "summaries (trusted by reading, not machine-checked: the real functions add the bytes as big-endian 16-bit words and then loop `for csum > 0xffff { csum = csum>>16 + csum&0xffff }`; two folds are exact for every 32-bit value): layers.checksum, layers.tcpipChecksum = sum followed by two 16-bit folds",
     "stubs: repo logger = no-op; fmt.Errorf builds the real wrapError/wrapErrors/errorString objects with an opaque message; errors.Is/As = stdlib algorithm re-stated without reflection; time.Now/Since = virtual clock; math/rand = fresh unconstrained value per call",
 ]
 
@@ -413,7 +413,7 @@ spec("C14", ["C14/", "C11/concurrent"], c14_q, c14_t,
 cross = [J("icmp", "Verif_C11_cross_icmp", ["end"], form=0), J("icmp", "Verif_C11_cross_icmp", ["end"], form=1), J("icmp", "Verif_C11_cross_icmp", ["end"], form=0, v6=1), J("icmp", "Verif_C11_cross_icmp", ["end"], form=1, v6=1),
          J("udp", "Verif_C11_cross_udp", ["end"]), J("udp", "Verif_C11_cross_udp", ["end"], v6=1, min=3),
          J("tcp", "Verif_C11_cross_tcp", ["end"], form=0), J("tcp", "Verif_C11_cross_tcp", ["end"], form=1, paris=1), J("tcp", "Verif_C11_cross_tcp", ["end"], form=2),
-         J("sack", "Verif_C11_cross_sack", ["end"], form=0, max=30, loosen=1), J("sack", "Verif_C11_cross_sack", ["end"], form=1, max=30, loosen=1),
+         J("sack", "Verif_C11_cross_sack", ["end"], form=0, max=30, loosen=1), J("sack", "Verif_C11_cross_sack", ["end"], form=1, max=30, loosen=1), J("sack", "Verif_C11_cross_sack", ["end"], form=2, max=30, loosen=1),
          J("icmp", "Verif_C14_echoid", ["end"]), J("packets", "Verif_C14_alloc", ["end"])]
 SPECS["C11"]["tiers"]["quick"]["jobs"] += cross
 SPECS["C11"]["tiers"]["thorough"]["jobs"] += cross + [J("icmp", "Verif_C11_cross_icmp", ["end"], form=0, W=3), J("udp", "Verif_C11_cross_udp", ["end"], W=3), J("tcp", "Verif_C11_cross_tcp", ["end"], form=1, W=3), J("sack", "Verif_C11_cross_sack", ["end"], form=1, max=255, loosen=1, W=3)]
